@@ -24,15 +24,16 @@ pub const K_CLOSURE: u8 = 5;
 
 // Finalizer behaviours.
 pub const F_NONE: u8 = 0;
-pub const F_READ: u8 = 1; // read the canaries of the neighbours
-pub const F_CLEAR0: u8 = 2; // clear traced slot 0
-pub const F_STASH_SELF: u8 = 3; // resurrect self by cloning slot-0's target's back pointer ... see finalize()
-pub const F_STASH_NEIGH: u8 = 4; // resurrect the target of slot 0
-pub const F_ALLOC: u8 = 5; // allocate a new object (and drop it)
-pub const F_COLLECT: u8 = 6; // request a collection
-pub const F_UPGRADE_STASH: u8 = 7; // upgrade own weak slot into the stash
-pub const F_UNSTASH: u8 = 8; // drop one stashed pointer (finalizers that keep releasing objects)
-pub const F_NBEHAV: u8 = 9;
+pub const F_CLEAR0: u8 = 1; // drop the field in traced slot 0
+pub const F_STASH_SELF: u8 = 2; // resurrect self: clone a Cc to self found in the graph into a program-held place
+pub const F_STASH_NEIGH: u8 = 3; // resurrect the target of slot 0
+pub const F_ALLOC_NODE: u8 = 4; // create a new object inside the finalizer and keep it
+pub const F_COLLECT: u8 = 5; // request a collection from inside the finalizer
+pub const F_UNSTASH: u8 = 6; // release one program-held pointer (finalizers that keep releasing objects)
+pub const F_UPGRADE_STASH: u8 = 7; // upgrade the weak slot into a program-held place (weak-ptrs)
+pub const F_UPGRADE_SLOT1: u8 = 8; // upgrade the weak slot into the object's own traced slot 1 (weak-ptrs)
+pub const F_NBEHAV: u8 = 7;
+pub const F_NBEHAV_WEAK: u8 = 9;
 
 pub struct Node {
     pub id: usize,
@@ -58,8 +59,18 @@ pub struct World {
     pub saw_dropped: u32,
     /// A finalizer ran after the drop of the same object.
     pub fin_after_drop: u32,
-    /// A destructor of a set ran while a member due for finalization was not finalized yet... recorded per drop
+    /// A destructor ran on an object that was still due for finalization.
+    pub drop_unfinalized: u32,
+    /// `armed[i]`: object `i` is due for finalization (initially, and again after `finalize_again`).
+    pub armed: [bool; MAXN],
+    pub rearm: [u8; MAXN],
+    /// created inside a finalizer: must report already_finalized() and never be finalized automatically
+    pub born_in_fin: [bool; MAXN],
+    /// a nested collect_cycles() from a callback of a running collection changed executions_count()
+    pub nested_collect: u32,
     pub in_callback: u32,
+    /// set by the harness around top-level collect_cycles() calls
+    pub in_collect: bool,
     // ---- fault plan: the `fault_at`-th invocation (1-based) of callback kind `fault_kind` panics
     pub fault_kind: u8,
     pub fault_at: u32,
@@ -80,6 +91,9 @@ pub struct World {
     pub uedge: [u8; MAXN],
     pub phantom: [u16; MAXN],
     pub boxsz: [u64; MAXN],
+    pub boxsz0: u64,
+    /// `i` was unreachable from program-held pointers at some observation point since it was (re-)armed
+    pub ever_unreachable: [bool; MAXN],
     pub addr: [usize; MAXN],
     pub n: usize,
 }
@@ -97,7 +111,13 @@ pub static mut W: World = World {
     fin_on_live: 0,
     saw_dropped: 0,
     fin_after_drop: 0,
+    drop_unfinalized: 0,
+    armed: [true; MAXN],
+    rearm: [0; MAXN],
+    born_in_fin: [false; MAXN],
+    nested_collect: 0,
     in_callback: 0,
+    in_collect: false,
     fault_kind: 0,
     fault_at: 0,
     count: [0; 6],
@@ -113,6 +133,8 @@ pub static mut W: World = World {
     uedge: [NONE; MAXN],
     phantom: [0; MAXN],
     boxsz: [0; MAXN],
+    boxsz0: 0,
+    ever_unreachable: [false; MAXN],
     addr: [0; MAXN],
     n: 0,
 };
@@ -182,14 +204,22 @@ impl Finalize for Node {
         }
         w.fins[id] = w.fins[id].wrapping_add(1);
         event(K_FINALIZE as u32, id as u64, 0);
-        if model_reachable(id) {
-            w.fin_on_live += 1;
+        w.armed[id] = false;
+        note_unreachable();
+        if !w.ever_unreachable[id] {
+            w.fin_on_live += 1; // it never became unreachable, yet it is finalized
         }
-        // Everything reachable from a finalized object must still be undropped.
+        // Everything reachable from a finalized object must still be undropped and intact.
+        let r = reach_from(id);
+        for t in 0..w.n {
+            if r[t] && w.drops[t] != 0 {
+                w.saw_dropped += 1;
+            }
+        }
         for s in 0..2 {
             if let Some(c) = &self.slots()[s] {
-                let t = model_target(id, s);
-                if t != NONE && (w.drops[t as usize] != 0 || c.canary != CANARY + t as u32) {
+                let t = w.edge[id][s];
+                if t != NONE && c.canary != CANARY + t as u32 {
                     w.saw_dropped += 1;
                 }
             }
@@ -200,9 +230,6 @@ impl Finalize for Node {
                 clear_slot(id, 0);
             }
             F_STASH_SELF => {
-                // Resurrect self: some neighbour (or self) holds a Cc to us in slot; clone it through the neighbour.
-                // A finalizer only gets `&self`, so it finds a Cc to itself in the graph: slot 0 of its slot-0 target,
-                // or its own slot if it is a self loop. The harness only arms this behaviour on such shapes.
                 if let Some(me) = find_cc_to(id) {
                     stash_put(id, me);
                 }
@@ -216,32 +243,56 @@ impl Finalize for Node {
                     }
                 }
             }
-            F_ALLOC => {
-                let c = Cc::new(7u32);
-                check(c.already_finalized_compat(), 9001);
-                drop(c);
+            F_ALLOC_NODE => {
+                let j = w.n;
+                if j < MAXN {
+                    new_node(j);
+                    w.born_in_fin[j] = true;
+                    w.armed[j] = false;
+                    if let Some(c) = w.h[j].take() {
+                        check(c.already_finalized_compat(), 9001); // C05: born finalized
+                        stash_put(j, c);
+                    }
+                }
             }
             F_COLLECT => {
                 let before = state::executions_count().unwrap_or(0);
-                let collecting_before = w.in_callback;
+                let collecting = w.in_collect;
                 collect_cycles();
-                let _ = (before, collecting_before);
-            }
-            #[cfg(feature = "weak-ptrs")]
-            F_UPGRADE_STASH => {
-                if let Some(wk) = self.wslot() {
-                    if let Some(c) = wk.upgrade() {
-                        let t = c.id;
-                        stash_put(t, c);
-                    }
+                if collecting && state::executions_count().unwrap_or(0) != before {
+                    w.nested_collect += 1;
                 }
             }
             F_UNSTASH => {
                 for i in 0..MAXN {
                     if w.stash[i].is_some() {
                         let c = w.stash[i].take();
+                        note_unreachable();
                         drop(c);
                         break;
+                    }
+                }
+            }
+            #[cfg(feature = "weak-ptrs")]
+            F_UPGRADE_STASH => {
+                if let Some(wk) = self.wslot() {
+                    if let Some(c) = wk.upgrade() {
+                        let t = c.id;
+                        check(w.drops[t] == 0 && c.canary == CANARY + t as u32, 9002); // C08: never a dropped value
+                        stash_put(t, c);
+                    }
+                }
+            }
+            #[cfg(feature = "weak-ptrs")]
+            F_UPGRADE_SLOT1 => {
+                if let Some(wk) = self.wslot() {
+                    if let Some(c) = wk.upgrade() {
+                        let t = c.id;
+                        check(w.drops[t] == 0 && c.canary == CANARY + t as u32, 9002);
+                        let old = core::mem::replace(&mut self.slots()[1], Some(c));
+                        w.edge[id][1] = t as u8;
+                        note_unreachable();
+                        drop(old);
                     }
                 }
             }
@@ -262,10 +313,14 @@ impl Drop for Node {
         if self.canary != CANARY + id as u32 {
             w.saw_dropped += 1;
         }
+        if cfg!(feature = "finalization") && w.armed[id] && !w.tainted {
+            w.drop_unfinalized += 1;
+        }
         self.canary = 0xDEAD_0000 + id as u32;
         // The drop glue releases the fields right after this returns: mirror it in the model.
         w.edge[id] = [NONE; 2];
         w.uedge[id] = NONE;
+        note_unreachable();
         maybe_fault(K_DROP);
     }
 }
@@ -294,6 +349,10 @@ impl<T: Trace> AlreadyFinalizedCompat for Cc<T> {
 /// Creates node `i` with a program-held pointer in `h[i]`.
 pub fn new_node(i: usize) {
     let w = w();
+    // reserve the id first: Cc::new may start a collection whose finalizers create nodes themselves
+    if i >= w.n {
+        w.n = i + 1;
+    }
     let before = state::allocated_bytes().unwrap_or(0);
     let c = Cc::new(Node {
         id: i,
@@ -304,7 +363,11 @@ pub fn new_node(i: usize) {
         wslot: UnsafeCell::new(None),
     });
     let after = state::allocated_bytes().unwrap_or(0);
-    w.boxsz[i] = (after.wrapping_sub(before)) as u64;
+    // every node has the same layout: measure the first one (created on an empty heap, so no collection can interfere)
+    if w.boxsz0 == 0 {
+        w.boxsz0 = (after.wrapping_sub(before)) as u64;
+    }
+    w.boxsz[i] = w.boxsz0;
     w.addr[i] = (&*c) as *const Node as usize;
     w.created[i] = true;
     w.h[i] = Some(c);
@@ -395,6 +458,7 @@ pub fn set_slot(i: usize, s: usize, j: usize) {
     let c = src.clone();
     let old = core::mem::replace(&mut owner.slots()[s], Some(c));
     w.edge[i][s] = j as u8;
+    note_unreachable();
     drop(old);
 }
 
@@ -410,6 +474,7 @@ pub fn clear_slot(i: usize, s: usize) {
     let Some(p) = node_ptr(i) else { return };
     let old = unsafe { &*p }.slots()[s].take();
     w.edge[i][s] = NONE;
+    note_unreachable();
     drop(old);
 }
 
@@ -420,6 +485,7 @@ pub fn set_untraced(i: usize, j: usize) {
     let c = src.clone();
     let old = core::mem::replace(owner.untraced(), Some(c));
     w.uedge[i] = j as u8;
+    note_unreachable();
     drop(old);
 }
 
@@ -435,16 +501,19 @@ pub fn clone_h(i: usize) {
 
 pub fn drop_h(i: usize) {
     let c = w().h[i].take();
+    note_unreachable();
     drop(c);
 }
 
 pub fn drop_h2(i: usize) {
     let c = w().h2[i].take();
+    note_unreachable();
     drop(c);
 }
 
 pub fn drop_stash(i: usize) {
     let c = w().stash[i].take();
+    note_unreachable();
     drop(c);
 }
 
@@ -519,6 +588,42 @@ pub fn reach_set() -> [bool; MAXN] {
     r
 }
 
+/// Objects reachable from object `id` (itself included) through traced and untraced edges.
+pub fn reach_from(id: usize) -> [bool; MAXN] {
+    let w = w();
+    let mut r = [false; MAXN];
+    r[id] = true;
+    for _ in 0..w.n {
+        for i in 0..w.n {
+            if r[i] && w.drops[i] == 0 {
+                for s in 0..2 {
+                    let t = w.edge[i][s];
+                    if t != NONE {
+                        r[t as usize] = true;
+                    }
+                }
+                let t = w.uedge[i];
+                if t != NONE {
+                    r[t as usize] = true;
+                }
+            }
+        }
+    }
+    r
+}
+
+/// Records which objects are unreachable right now. Called after every model update that can shrink reachability,
+/// before the real pointer is released - i.e. before any finalizer can run because of it.
+pub fn note_unreachable() {
+    let w = w();
+    let r = reach_set();
+    for i in 0..w.n {
+        if w.created[i] && !r[i] {
+            w.ever_unreachable[i] = true;
+        }
+    }
+}
+
 pub fn model_reachable(i: usize) -> bool {
     reach_set()[i]
 }
@@ -585,6 +690,21 @@ pub fn oracle_safety(base: u32) {
     check(w.fin_on_live == 0, base + 7); // C05
     check(w.saw_dropped == 0, base + 8); // C05 / C01
     check(w.fin_after_drop == 0, base + 9); // C05
+    check(w.drop_unfinalized == 0, base + 10); // C05: finalized before dropped
+    check(w.nested_collect == 0, base + 12); // C12: collections never nest
+    for i in 0..w.n {
+        if !w.created[i] {
+            continue;
+        }
+        if cfg!(feature = "finalization") {
+            check(w.fins[i] <= 1 + w.rearm[i], base + 13); // C05: at most once unless re-armed
+            if w.born_in_fin[i] {
+                check(w.fins[i] <= w.rearm[i], base + 14); // C05: objects created in a finalizer are never finalized automatically
+            }
+        } else {
+            check(w.fins[i] == 0, base + 15); // C05: feature off => never called
+        }
+    }
 }
 
 /// C04: reference counting alone reclaims at once (valid at top level whenever no panic was caught).
@@ -630,7 +750,9 @@ pub fn collect_quiescent(max: u32, base: u32) {
     loop {
         let d0 = w.count[K_DROP as usize];
         let f0 = w.count[K_FINALIZE as usize];
+        w.in_collect = true;
         collect_cycles();
+        w.in_collect = false;
         if w.count[K_DROP as usize] == d0 && w.count[K_FINALIZE as usize] == f0 {
             break;
         }
